@@ -403,7 +403,7 @@ func runCheck(prop, tier string, only, casesOverride, budgetOverride int) int {
 				os.Remove(o)
 			}
 		}
-		raceEnv := []string{"VERIF_REPO=" + repoRoot, "GOMAXPROCS=4", "VERIF_NO_RLIMIT=1", "VERIF_RACE_LOG=" + raceLog, "GORACE=log_path=" + raceLog + " halt_on_error=0 history_size=2"}
+		raceEnv := []string{"VERIF_REPO=" + repoRoot, "GOMAXPROCS=4", "VERIF_NO_RLIMIT=1", "VERIF_RACE_LOG=" + raceLog, "GORACE=log_path=" + raceLog + " halt_on_error=0 history_size=2", "VERIF_SITES=" + filepath.Join(verifRoot, "build", prop+"-race", "sites.json")}
 		pools = append(pools, pool{raceBin, raceEnv})
 		budget = budget / 2
 	}
@@ -745,7 +745,7 @@ func runReplay(path string) int {
 		}
 		abs, _ := filepath.Abs(path)
 		raceLog := filepath.Join(verifRoot, "build", prop+"-race", "racelog-replay")
-		raceEnv := []string{"VERIF_REPO=" + repoRoot, "GOMAXPROCS=4", "VERIF_NO_RLIMIT=1", "VERIF_RACE_LOG=" + raceLog, "GORACE=log_path=" + raceLog + " halt_on_error=0 history_size=2"}
+		raceEnv := []string{"VERIF_REPO=" + repoRoot, "GOMAXPROCS=4", "VERIF_NO_RLIMIT=1", "VERIF_RACE_LOG=" + raceLog, "GORACE=log_path=" + raceLog + " halt_on_error=0 history_size=2", "VERIF_SITES=" + filepath.Join(verifRoot, "build", prop+"-race", "sites.json")}
 		rr := runWorker(rb.Bin, Job{Mode: "replay", Replay: abs, Only: -1}, raceEnv, 180*time.Second)
 		if rr.done != nil && rr.done.Repro {
 			fmt.Print(rr.done.Text)
